@@ -17,7 +17,8 @@ TRACE = "T_FileTree"
 ENUM = {
     "quick":    [dict(module="MC_FileTree", cfg="MC_FileTree_quick.cfg", workers=8),
                  dict(module="MC_WavMeta", cfg="MC_WavMeta_quick.cfg", workers=2)],
-    "thorough": [dict(module="MC_FileTree", cfg="MC_FileTree_thorough.cfg", workers=16, coverage=True),
+    "thorough": [dict(module="MC_FileTree", cfg="MC_FileTree_thorough.cfg", workers=16),
+                 dict(module="MC_FileTree", cfg="MC_FileTree_cov.cfg", workers=4, coverage=True, expect_cases=False),     # every action taken
                  dict(module="MC_FileTree", cfg="MC_FileTree_live.cfg", workers=8, expect_cases=False),     # termination as a liveness property
                  dict(module="MC_WavMeta", cfg="MC_WavMeta_thorough.cfg", workers=4, coverage=True)],
 }
